@@ -590,6 +590,7 @@ def sibling_job(seed, n):
         progs.append((p, k))
     collect()
     a = fresh_module()
+    snap0 = tables_snapshot(a)
     import random
     for p, k in progs:
         labs = [it.name for it in p.items if it.kind == 'label']
@@ -635,6 +636,34 @@ def sibling_job(seed, n):
                         {'kind': 'sibling', 'A': T1, 'B': T2, 'compress': comp, 'twin': True})
                 else:
                     res.count('near_twins')
+            # ... names that only an EARLIER program defined (a register alias and a value constant; A's own constants too) must be as
+            # unknown afterwards as in a module that never saw the definitions
+            res.evaluations += 1
+            progcheck.assemble(a, 'LEFT_REG = s1\nLEFT_VAL = 40\naddi LEFT_REG, LEFT_REG, LEFT_VAL\n', comp, labels={}, constants={})
+            probes = ['addi LEFT_REG, LEFT_REG, 1\n', 'addi x5, x5, LEFT_VAL\n', 'mv LEFT_REG, x5\n']
+            # ... and spellings an earlier (refused: register names are lower-case) line used in ANOTHER ROLE: as registers there, as constants here
+            for ln in ('ADDI T1, T1, 1\n', 'ADD A0, A0, S1\n', 'MV X5, SP\n', 'SLLI ZERO, ZERO, 1\n'):
+                progcheck.assemble(a, ln, comp, labels={}, constants={})
+            probes += ['T1 = 40\naddi x5, x5, T1\n', 'A0 = 3\nslli x6, x6, A0\n', 'SP = 8\nX5 = 9\naddi x7, x7, SP + X5\n']
+            cdefs = [it.name for it in p.items if it.kind == 'const']
+            if cdefs:
+                nm = cdefs[k % len(cdefs)]
+                probes += ['addi %s, %s, 1\n' % (nm, nm), 'addi x5, x5, %s\n' % nm]
+            for probe in probes:
+                ref4 = progcheck.assemble(fresh_module(), probe, comp, labels={}, constants={})
+                got4 = progcheck.assemble(a, probe, comp, labels={}, constants={})
+                if got4[0] != ref4[0] or (ref4[0] == 'ok' and got4[1] != ref4[1]):
+                    res.fail('history:leftover_name', 'the program %r gives %s after a program that defined the name, on its own %s (compress=%s)\n--- earlier program\n%s' % (
+                        probe, got4[1].hex() if got4[0] == 'ok' else got4[0], ref4[1].hex() if ref4[0] == 'ok' else ref4[0], comp, A[:500]),
+                        {'kind': 'sibling', 'A': A, 'B': probe, 'compress': comp, 'twin': True,
+                         'seq': [A, 'LEFT_REG = s1\nLEFT_VAL = 40\naddi LEFT_REG, LEFT_REG, LEFT_VAL\n', 'ADDI T1, T1, 1\n', 'ADD A0, A0, S1\n', 'MV X5, SP\n', 'SLLI ZERO, ZERO, 1\n']})
+                    break
+            else:
+                res.count('leftover_name_probes')
+            if tables_snapshot(a) != snap0:
+                res.fail('history:tables', 'module-level tables of the assembler changed while assembling (compress=%s)\n%s' % (comp, A[:500]),
+                         {'kind': 'sibling', 'A': A, 'B': A, 'compress': comp, 'twin': True, 'tables': True})
+                snap0 = tables_snapshot(a)
             # ... and a small unrelated program that uses one of A's label names as a CONSTANT (a constant shadows a left-over
             # label of the same name): with A's labels dictionary it must assemble to what it gives with an empty one
             name = labs[k % len(labs)]
@@ -677,10 +706,21 @@ def replay(path):
         body = json.load(f)
     c = body['case']
     _stats = env.Result()
+    if c['kind'] == 'sibling' and c.get('tables'):
+        m = fresh_module()
+        snap = tables_snapshot(m)
+        for ln in ('ADDI T1, T1, 1\n', 'ADD A0, A0, S1\n', 'MV X5, SP\n', 'SLLI ZERO, ZERO, 1\n', c['A']):
+            progcheck.assemble(m, ln, c['compress'], labels={}, constants={})
+        if tables_snapshot(m) != snap:
+            print('VIOLATION property=%s replay=%s' % (PROP, path))
+            return env.EXIT_VIOLATION
+        print('replay holds: %s' % path)
+        return env.EXIT_OK
     if c['kind'] == 'sibling' and c.get('twin'):
         m = fresh_module()
         ref = progcheck.assemble(fresh_module(), c['B'], c['compress'], labels={}, constants={})
-        progcheck.assemble(m, c['A'], c['compress'], labels={}, constants={})
+        for src in c.get('seq', [c['A']]):
+            progcheck.assemble(m, src, c['compress'], labels={}, constants={})
         got = progcheck.assemble(m, c['B'], c['compress'], labels={}, constants={})
         if got[0] != ref[0] or (ref[0] == 'ok' and got[1] != ref[1]):
             print('VIOLATION property=%s replay=%s' % (PROP, path))
